@@ -272,7 +272,7 @@ def small_enough(toks):
             return False
     if toks and toks[0] in ('grid', 'torus') and n > 4:
         return False
-    if toks and toks[0] in ('tree', 'pyramid') and any(t.strip().lstrip('+').isdigit() and int(t) > 6 for t in toks[1:2]):
+    if toks and toks[0] in ('tree', 'pyramid') and any((py_int(t) or 0) > 6 for t in toks[1:2]):
         return False
     return True
 
